@@ -421,16 +421,25 @@ def check_prefix_input(out, facts):
                 why.append('an empty read changes state')
             continue
         take = [e for e in p if e[0] == 'MUTCALL' and e[1] == 'take']
-        if len(take) != 1 or sym.vstr(take[0][3][0]) != 'self.prefix':
-            why.append('prefix is not consumed with take() exactly once')
+        pset = [e for e in p if e[0] == 'SET' and sym.vstr(e[1]) == 'self.prefix']
         some = [a for a in arms if not (isinstance(a[1], tuple) and a[1][0] == 'if')]
+        on_some = bool(some and isinstance(some[0][2], tuple) and some[0][2][1] == 'Some')
+        # the pending byte is consumed exactly once on the path that delivers it: `take()`, or reading the field and
+        # assigning None; the path without a pending byte leaves the field alone (a take() of None is a no-op)
+        by_take = len(take) == 1 and sym.vstr(take[0][3][0]) == 'self.prefix' and not pset
+        by_assign = not take and len(pset) == 1 and pset[0][3] is None and sym.vstr(pset[0][2]) in ('Option::None{}', 'None')
+        if on_some and not (by_take or by_assign):
+            why.append('prefix is not consumed exactly once (take(), or read + `= None`)')
+        if not on_some and (pset or len(take) > 1 or (take and sym.vstr(take[0][3][0]) != 'self.prefix')):
+            why.append('the path without a pending prefix byte modifies the prefix')
         reads = [e for e in p if e[0] == 'read']
         if len(reads) != 1:
             why.append('a path forwards %d reads' % len(reads))
             continue
         if some and isinstance(some[0][2], tuple) and some[0][2][1] == 'Some':
-            sets = [e for e in p if e[0] == 'SET']
-            first_ok = len(sets) == 1 and sym.vstr(sets[0][1]) in ('into[0:usize]', 'split_first_mut(into).Some.0.0') and 'take(self.prefix).Some.0' in sym.vstr(sets[0][2])
+            sets = [e for e in p if e[0] == 'SET' and sym.vstr(e[1]) != 'self.prefix']
+            first_ok = len(sets) == 1 and sym.vstr(sets[0][1]) in ('into[0:usize]', 'split_first_mut(into).Some.0.0') and (
+                'take(self.prefix).Some.0' in sym.vstr(sets[0][2]) or 'self.prefix.Some.0' in sym.vstr(sets[0][2]))
             if not first_ok:
                 why.append('prefix byte is not written to buffer[0]')
             rest_ok = view_str(slice_view(reads[0][1])) == 'into[1:usize..]' or sym.vstr(reads[0][1]) == 'split_first_mut(into).Some.0.1'
